@@ -55,6 +55,15 @@ CLAIMED['C19'] = dict(
     note='Trusted: Lean kernel + Mathlib order/field lemmas; IEEE rounding is outside the rational model (float findings F13c/F13d). deep_distance is partial: observed, not proved. '
          'Known findings F13a, F13b, F17a, F17b, F24, F25.',
     technique='Lean 4 proof (rational arithmetic) + differential correspondence; deep_distance by evaluation inside a stated domain')
+CLAIMED['C20'] = dict(
+    text='Lean 4 theorems over a file-system state machine of save_content_to_path/_save_content: for every file system, path, content and every fault point (open, '
+         'serialise, write with any partial text, close) a failed save leaves the target with its original content, no stray .bak and no other path touched; a successful '
+         'save writes the serialised content and keeps the backup exactly when asked. Correspondence: the real CLI (click CliRunner, scratch directory) with faults injected '
+         'in-process vs the compiled model; the end-to-end clause (diff --create-patch, patch => A loads equal to B, A.bak) is evaluated on the real CLI over generated documents.',
+    design='5/C20',
+    note='Trusted: Lean kernel; POSIX rename/remove; OS-level partial writes; the restoring rename not failing. The compose theorem (C01 . C14 . JSON) is not yet stated in Lean: '
+         'that clause is observed, not proved.',
+    technique='Lean 4 proof (case analysis over fault points of a state machine) + differential correspondence with in-process fault injection')
 NA = {}
 
 checks = []
